@@ -188,6 +188,37 @@ def dispatch (np : NpInfo) (settings : Option (Bool × Bool)) (op : Op) (a b : O
             .ok (tree, d)
         | _, _ => .error .typeError
 
+
+/-! ### Python's operator protocol on `Var` (the wiring between `a <op> b` and the dispatcher methods) -/
+
+/-- Which dispatcher method a dunder of `Var` calls, and whether it passes `(other, self)`.
+    The only instance used is read from the class body on every run (`Generated/VarDunders.lean`). -/
+structure Wiring where
+  /-- `Var.__op__` -/
+  fwd : Op → Option (Op × Bool)
+  /-- `Var.__rop__` -/
+  rev : Op → Option (Op × Bool)
+
+/-- `a <op> b` as Python evaluates it when at least one operand is a `Var` and the other operand's own
+    type does not handle it (Python scalars and `None`/`str` return `NotImplemented` for a `Var`):
+    `type(a).__op__(a, b)` if `a` is a `Var`, else the reflected `type(b).__rop__(b, a)`.
+    A missing dunder is Python's `TypeError`. -/
+def applyOperator (w : Wiring) (np : NpInfo) (settings : Option (Bool × Bool)) (op : Op) (a b : Operand) :
+    Except Err (Tree × Nat) :=
+  match a with
+  | .var _ =>
+      match w.fwd op with
+      | some (m, sw) => if sw then dispatch np settings m b a else dispatch np settings m a b
+      | none => .error .typeError
+  | _ =>
+      match b with
+      | .var _ =>
+          match w.rev op with
+          -- `b.__rop__(a)`: self = b, other = a; swapped = the dispatcher gets `(other, self)` = `(a, b)`
+          | some (m, sw) => if sw then dispatch np settings m a b else dispatch np settings m b a
+          | none => .error .typeError
+      | _ => .error .typeError
+
 /-! ### Integer semantics -/
 
 /-- two's-complement (signed) / modular (unsigned) wrap-around into dtype `d` -/
